@@ -1,4 +1,5 @@
 import DL.Props.C06
+import DL.Gen.CtxAccess
 
 /-!
 # C04 — only enabled rules report; rules do not influence one another (pipeline part)
@@ -58,5 +59,56 @@ theorem lintInner_codes_enabled (cfg : Cfg) (st : St) (ruleDiags : List Diag) (e
       · rcases h2 with h2 | h2
         · exact Or.inr (Or.inr (Or.inr ⟨h1, Or.inl h2⟩))
         · exact Or.inr (Or.inr (Or.inr ⟨h1, Or.inr ⟨_, rfl, h2⟩⟩))
+
+/-! ## rules do not influence one another: the append-only contract of `Context` -/
+
+/-- an ordinary rule: reads immutable facts about the file, appends diagnostics tagged with its own code -/
+structure ARule (F : Type) where
+  code : String
+  report : F → List Diag
+  own : ∀ f, ∀ d ∈ report f, d.code = code
+
+/-- `for rule in rules { rule.lint_program_with_ast_view(&mut context, pg) }` for append-only rules -/
+def runRules {F : Type} (rules : List (ARule F)) (f : F) : List Diag := rules.flatMap fun r => r.report f
+
+/-- the diagnostics a rule contributes are the same whether it runs alone or together with any other rules, in any
+position of the rule list -/
+theorem project_run {F : Type} (rules : List (ARule F)) (hn : (rules.map (·.code)).Nodup) (r : ARule F) (hr : r ∈ rules)
+    (f : F) : (runRules rules f).filter (fun d => d.code == r.code) = r.report f := by
+  unfold runRules
+  induction rules with
+  | nil => cases hr
+  | cons x rest ih =>
+    simp only [List.map_cons, List.nodup_cons, List.mem_map, not_exists, not_and] at hn
+    simp only [List.flatMap_cons, List.filter_append]
+    rcases List.mem_cons.mp hr with rfl | hr'
+    · have h1 : (r.report f).filter (fun d => d.code == r.code) = r.report f := by
+        apply List.filter_eq_self.mpr; intro d hd; simp [r.own f d hd]
+      have h2 : (rest.flatMap fun y => y.report f).filter (fun d => d.code == r.code) = [] := by
+        apply List.filter_eq_nil_iff.mpr
+        intro d hd
+        obtain ⟨y, hy, hdy⟩ := List.mem_flatMap.mp hd
+        have := y.own f d hdy
+        simp only [beq_iff_eq]
+        intro e; exact hn.1 y hy (by rw [← this, e])
+      rw [h1, h2, List.append_nil]
+    · have h1 : (x.report f).filter (fun d => d.code == r.code) = [] := by
+        apply List.filter_eq_nil_iff.mpr
+        intro d hd
+        have := x.own f d hd
+        simp only [beq_iff_eq]
+        intro e; exact hn.1 r hr' (by rw [← e, this])
+      rw [h1, List.nil_append]; exact ih hn.2 hr'
+
+/-- the order in which the rules were supplied does not matter for any single rule's contribution -/
+theorem project_run_perm {F : Type} (rules rules' : List (ARule F)) (hp : rules.Perm rules')
+    (hn : (rules.map (·.code)).Nodup) (r : ARule F) (hr : r ∈ rules) (f : F) :
+    (runRules rules f).filter (fun d => d.code == r.code) = (runRules rules' f).filter (fun d => d.code == r.code) := by
+  rw [project_run rules hn r hr f, project_run rules' ((hp.map _).nodup_iff.mp hn) r (hp.mem_iff.mp hr) f]
+
+/-! the contract is read off the source on every run: no rule reads the diagnostics collected so far -/
+open DL.Gen in
+theorem no_rule_reads_collected_diagnostics : ∀ row ∈ ctxMethodCalls, row.2.contains "diagnostics" = false := by
+  decide +kernel
 
 end DL.Props.C04
